@@ -99,6 +99,7 @@ func (ex *Exec) withCallClauses(fr *Frame, st *State, name string, site ssa.Inst
 		return do()
 	}
 	env := ex.specEnv(fr, st, site.Pos())
+	env.loopIdx = ex.enclosingRangeIdx(fr, site)
 	for i, a := range argVals {
 		env.vars[fmt.Sprintf("$%d", i)] = a
 	}
